@@ -111,7 +111,8 @@ func (n *memoryStoreNode) findNewest() *memoryStoreNode {
 	known := n
 	for _, child := range n.children {
 		cl := child.findNewest()
-		if cl.version > known.version {
+		// only nodes holding a wire compete (0 is a valid version)
+		if cl.wire != nil && (known.wire == nil || cl.version > known.version) {
 			known = cl
 		}
 	}
